@@ -138,6 +138,55 @@ def run(repo):
                                      'operation on the operand\'s %s: the result shape may differ from '
                                      'NumPy\'s' % (fi.fq, field, [ntext(c)[:40] for c in cands], field),
                                      repo.where(fi, node), P))
+    # the index-array memo depends on the shape only: it may be forwarded to a new object only
+    # together with the owner's own constant / shape
+    n_fw = 0
+    for fi in repo.all_functions():
+        if fi.module != 'lp':
+            continue
+        for n in walk_no_nested(fi.node):
+            if not (isinstance(n, ast.Call) and isinstance(n.func, (ast.Name, ast.Attribute))):
+                continue
+            fname = n.func.id if isinstance(n.func, ast.Name) else None
+            target = None
+            if fname is not None:
+                r = repo.resolve_name(fi.module, fname)
+                if isinstance(r, ClassInfo) and r.fq in ('lp.Affine', 'lp.Vars'):
+                    target = r
+            elif isinstance(n.func, ast.Attribute) and n.func.attr == '__init__' and ntext(n.func.value) == 'super()' \
+                    and fi.cls is not None and fi.cls.bases and fi.cls.bases[0].fq in ('lp.Affine', 'lp.Vars', 'lp.VarSub'):
+                target = fi.cls.bases[0]
+            if target is None:
+                continue
+            init = repo.resolve_method(target, '__init__')
+            env = bind_args(init, n)
+            if not env or 'sparray' not in env:
+                continue
+            sp_e = env['sparray']
+            if isinstance(sp_e, ast.Constant) and sp_e.value is None:
+                continue
+            if not (isinstance(sp_e, ast.Attribute) and sp_e.attr == 'sparray'):
+                continue
+            n_fw += 1
+            owner = ntext(sp_e.value)
+            shape_arg = env.get('const') if 'const' in env else env.get('shape')
+            if 'var' in env and shape_arg is None:          # VarSub.__init__(var, indices)
+                shape_arg = env['var']
+            cands = inline(fi, shape_arg) if shape_arg is not None else []
+            ok = any(ntext(c) in (owner + '.const', owner + '.shape', owner,
+                                  'np.zeros(%s.shape)' % owner) for c in cands)
+            res.functions.add(fi.fq)
+            res.inst({'function': fi.fq, 'forwards_memo_of': owner,
+                      'with_shape_source': [ntext(c)[:40] for c in cands], 'ok': ok}, ok)
+            if not ok:
+                res.fail(Finding(RULE, fi.fq, 'sparray forwarded with another shape',
+                                 '%s forwards %s.sparray (the index-array memo, valid for %s\'s shape only) to '
+                                 'an object whose shape comes from `%s`: indexing / sum on the result then '
+                                 'selects rows by the old shape'
+                                 % (fi.fq, owner, owner, '; '.join(ntext(c)[:40] for c in cands)),
+                                 repo.where(fi, n), P))
+    if n_fw < 3:
+        raise AnalysisError('only %d forwardings of the sparray memo found' % n_fw)
     return res
 
 
